@@ -14,7 +14,12 @@ _GATHER_NOTE = (
     "address; ONE host rewrite rule per agent - replace/append, catch-all or pinned to a local address, optionally "
     "interface-scoped - its lookup is restated for that shape, precedence among several rules is C19's; a host rule that "
     "can publish one address from sockets on two local addresses is only combined with no port range or a single-port "
-    "range, because listenUDPInPortRange starts its scan at a random port)."
+    "range, because listenUDPInPortRange starts its scan at a random port; CONTINUAL GATHERING - GatherContinually + monitor "
+    "interval, the fake Net's interface table replaced by `ifaces` operations, the monitor's ticks driven by the virtual "
+    "clock: in such sessions the clock moves by whole seconds and the interval is a prime number of ms, so that no tick "
+    "falls on the instant of a STUN/TURN timeout, and no virtual time passes between the start of a re-gather pass and a "
+    "Restart that falls into it - a cancelled monitor that returns from a pass with a tick waiting has a `select` with two "
+    "ready cases, whose random choice shows in open/close totals and lastKnownInterfaces, notes/C18.md O6)."
 )
 
 CFG = {
@@ -34,12 +39,16 @@ CFG = {
     "components": [{"component": "gather", "session_start": "new", "trivial_regex": r"^(bad-op.*|r=err:.*)$",
                     "timeout_quick": 300, "timeout_thorough": 1500, "shrink_s": 40}],
     "rule": "quick: all 16 network-type subsets x {no TCP mux, TCP mux} x 2 interface tables with double gather and restart; "
+            "continual gathering: 13 configurations x a script with an address appearing 1 ms before / at a tick, special-purpose, "
+            "loopback, filtered and down-interface addresses, removal, interface down/up, Restart, Close; Restart / Close / refused "
+            "gather while a re-gather pass is parked at the mux gate or waits for STUN / TURN (reply after the cancellation or never); "
+            "ticks during a pass; table change during the first pass; 1 random session in 6 continual with 1-4 random table changes; "
             "24 external-address lists x 9 host-rewrite rule shapes x 5 (network types, mux) settings with restart / double gather / "
             "close; 8 port-range/busy-port cases x 3 tables; Restart/Close/Failed inserted at every position of a reply script for 5 "
             "(thorough: 8) configurations; the stale-mux window (F12); 700 (thorough: 120000) random sessions = random "
             "configuration (candidate types, network types, port range, filters, loopback, mDNS, muxes, STUN/TURN URLs, TURN "
             "failures, rewrite rules) x random interface table x random script of gather/restart/close/fail/release/adv/"
-            "stunreply/turnreply. Distinct = distinct (operation, output) lines; non-trivial = a session exists (not a refused "
+            "stunreply/turnreply/ifaces/hold. Distinct = distinct (operation, output) lines; non-trivial = a session exists (not a refused "
             "constructor / bad-op).",
     "translated": [],
     "trusted_base": ["fake transport.Net / muxes / TURN client / STUN responder of harness/inpkg/zz_verif_gather_test.go",
